@@ -24,4 +24,8 @@ def run(ctx, L, tier):
     c14.precedence(ctx, L)           # sizes written as expressions are evaluated by the model-time evaluator
     c14.ladders(ctx, L)
     c14.evaluator_state(ctx, L)
+    from . import shared_gen as _G
+    _G.generators_read_only(ctx, L)
+    from . import shared_cxx as _X
+    _X.optional_codec_cxx(ctx, L)      # an absent optional occupies its wire slot (codec_traits<T>::size), not sizeof(T)
     return sorted(set(o.rule for o in L.obligations))
